@@ -285,7 +285,8 @@ func c06R3(c *Ctx) {
 			ok := false
 			for _, n := range pathTo(cs.Fn.Decl.Body, cs.Call) {
 				if r, isR := n.(*ast.RangeStmt); isR && r.Value != nil && identObj(cs.Fn.Info(), r.Value) == identObj(cs.Fn.Info(), recv) {
-					if call, isC := ast.Unparen(r.X).(*ast.CallExpr); isC && Callee(cs.Fn.Info(), call) == idles {
+					// directly, or through a local that holds the list (computed in the same lock-free start-up section)
+					if call, isC := ast.Unparen(derefLocal(p, cs.Fn, r.X, r)).(*ast.CallExpr); isC && Callee(cs.Fn.Info(), call) == idles {
 						ok = true
 					}
 				}
@@ -331,7 +332,26 @@ func c06R3(c *Ctx) {
 			c.Require("C06.R3", "Local.Dispose marks the ENI deleting only under canDispose", st.Fn, st.Node, "$l.canDispose()", map[string]string{"$l": base})
 		case "Local.factoryAllocWorker":
 			// failed creation: the half-created ENI has no address in use
-			c.Require("C06.R3", "factoryAllocWorker marks a failed creation deleting", st.Fn, st.Node, "err != nil && eni != nil", nil)
+			// (stated on the results of the creating call, whatever the variables are called)
+			req := ""
+			createM := p.Method("pkg/factory", "Factory", "CreateNetworkInterface")
+			ast.Inspect(st.Fn.Decl.Body, func(k ast.Node) bool {
+				if as, ok := k.(*ast.AssignStmt); ok && len(as.Rhs) == 1 && len(as.Lhs) >= 2 {
+					if call, ok := ast.Unparen(as.Rhs[0]).(*ast.CallExpr); ok && createM != nil && Callee(st.Fn.Info(), call) == createM {
+						if a, ok := as.Lhs[0].(*ast.Ident); ok {
+							if b, ok := as.Lhs[len(as.Lhs)-1].(*ast.Ident); ok && a.Name != "_" && b.Name != "_" {
+								req = b.Name + " != nil && " + a.Name + " != nil"
+							}
+						}
+					}
+				}
+				return true
+			})
+			if req == "" {
+				c.Undec("C06.R3", "factoryAllocWorker marks a failed creation deleting", p.Pos(st.Node), st.Fn.Key(), "the results of CreateNetworkInterface bound to variables", "not recognised")
+				break
+			}
+			c.Require("C06.R3", "factoryAllocWorker marks a failed creation deleting", st.Fn, st.Node, req, nil)
 		default:
 			c.Bad("C06.R3", "store statusDeleting in "+st.Fn.Key(), p.Pos(st.Node), st.Fn.Key(), "only Local.Dispose (under canDispose) and the failed-create arm mark an ENI deleting", "new site")
 		}
